@@ -1,117 +1,8 @@
 import JadeModel.Proofs.System
+import JadeModel.Proofs.SystemNodeDefs
+import JadeModel.Proofs.SystemNodeSteps
 
 set_option linter.unusedSimpArgs false
-
-namespace Jade.Sys
-
-/-! ### node runners: every start belongs to exactly one batch and happens once -/
-
-theorem mem_unique_batch {bs : List Batch} (hn : (bs.flatMap (·.jobs)).Nodup) {b b' : Batch} {j : JobId}
-    (hb : b ∈ bs) (hb' : b' ∈ bs) (hj : j ∈ b.jobs) (hj' : j ∈ b'.jobs) : b = b' := by
-  induction bs with
-  | nil => cases hb
-  | cons c cs ih =>
-    simp only [List.flatMap_cons, List.nodup_append] at hn
-    obtain ⟨hc, hcs, hdis⟩ := hn
-    rcases List.mem_cons.1 hb with h1 | h1 <;> rcases List.mem_cons.1 hb' with h2 | h2
-    · rw [h1, h2]
-    · subst h1
-      exact absurd rfl (hdis j hj j (List.mem_flatMap.2 ⟨b', h2, hj'⟩))
-    · subst h2
-      exact absurd rfl (hdis j hj' j (List.mem_flatMap.2 ⟨b, h1, hj⟩))
-    · exact ih hcs h1 h2
-
-structure NodeInv (s : Sys) : Prop where
-  batch : BatchInv s
-  /-- a node runner works on the batch whose HPC id it has -/
-  ofBatch : ∀ p a n, s.procs p = .node a n →
-    ∃ b ∈ s.batches, b.hid = some n.hid ∧ b.bid = n.bid ∧ (∀ j ∈ n.queued, j ∈ b.jobs) ∧ (∀ j ∈ n.running, j ∈ b.jobs)
-  /-- what waits in a node queue has not been started -/
-  queuedFresh : ∀ p a n, s.procs p = .node a n → ∀ j ∈ n.queued, j ∉ s.starts.map (·.1)
-  /-- one runner per HPC id -/
-  oneRunner : ∀ p p' a a' n n', s.procs p = .node a n → s.procs p' = .node a' n' → n.hid = n'.hid → p = p'
-  /-- the scheduler started (or ended) the batch of every runner -/
-  started : ∀ p a n, s.procs p = .node a n → s.slurm n.hid = some .running ∨ s.slurm n.hid = some .ended
-  /-- HPC ids are not reused, and an id exists on the scheduler iff some batch got it -/
-  hidUnique : ∀ b ∈ s.batches, ∀ b' ∈ s.batches, ∀ h, b.hid = some h → b'.hid = some h → b = b'
-  hidKnown : ∀ b ∈ s.batches, ∀ h, b.hid = some h → (s.slurm h).isSome = true
-  /-- every start happened on the node of the batch that contains the job, after the batch began -/
-  startsIn : ∀ jh ∈ s.starts, (∃ b ∈ s.batches, b.hid = some jh.2 ∧ jh.1 ∈ b.jobs) ∧
-    (s.slurm jh.2 = some .running ∨ s.slurm jh.2 = some .ended)
-  startsNodup : (s.starts.map (·.1)).Nodup
-
-theorem nodeInv_init (sc : Scn) : NodeInv (init sc) := by
-  refine ⟨batchInv_init sc, ?_, ?_, ?_, ?_, ?_, ?_, ?_, ?_⟩ <;> simp [init]
-
-end Jade.Sys
-
-namespace Jade.Sys
-
-set_option maxHeartbeats 8000000 in
-theorem nodeInv_simple_step {s s' : Sys} {op : Op} (hi : NodeInv s) (h : step s op = some s') :
-    (∀ p p' a a' n n', s'.procs p = .node a n → s'.procs p' = .node a' n' → n.hid = n'.hid → p = p') ∧
-    (∀ p a n, s'.procs p = .node a n → s'.slurm n.hid = some .running ∨ s'.slurm n.hid = some .ended) ∧
-    (∀ b ∈ s'.batches, ∀ h, b.hid = some h → (s'.slurm h).isSome = true) := by
-  obtain ⟨-, n1, n2, n3, n4, n5, n6, n7, n8⟩ := hi
-  cases op <;> step_cases h <;>
-    (refine ⟨?_, ?_, ?_⟩ <;> frame_all <;> grind [freshHid])
-
-end Jade.Sys
-
-namespace Jade.Sys
-
-theorem find?_hid {bs : List Batch} {h : Hid} {b : Batch}
-    (hf : bs.find? (fun b => b.hid == some h) = some b) : b ∈ bs ∧ b.hid = some h := by
-  have h1 := List.find?_some hf
-  have h2 := List.mem_of_find?_eq_some hf
-  exact ⟨h2, by simpa using h1⟩
-
-set_option maxHeartbeats 8000000 in
-theorem nodeInv_hid_step {s s' : Sys} {op : Op} (hi : NodeInv s) (h : step s op = some s') :
-    (∀ b ∈ s'.batches, ∀ b' ∈ s'.batches, ∀ h, b.hid = some h → b'.hid = some h → b = b') := by
-  obtain ⟨-, n1, n2, n3, n4, n5, n6, n7, n8⟩ := hi
-  cases op <;> step_cases h <;> frame_all <;>
-    first
-    | exact n5
-    | (intro b hb b' hb' h' e1 e2
-       simp only [List.mem_append, List.mem_singleton] at hb hb'
-       grind)
-
-set_option maxHeartbeats 8000000 in
-theorem nodeInv_ofBatch_step {s s' : Sys} {op : Op} (hi : NodeInv s) (h : step s op = some s') :
-    (∀ p a n, s'.procs p = .node a n →
-      ∃ b ∈ s'.batches, b.hid = some n.hid ∧ b.bid = n.bid ∧ (∀ j ∈ n.queued, j ∈ b.jobs) ∧ (∀ j ∈ n.running, j ∈ b.jobs)) := by
-  obtain ⟨-, n1, n2, n3, n4, n5, n6, n7, n8⟩ := hi
-  cases op <;> step_cases h <;> frame_all <;>
-    (intro p0 a0 n0 hq <;> grind [find?_hid])
-
-end Jade.Sys
-
-namespace Jade.Sys
-
-/-- a job waiting in one node queue is in no other node queue -/
-theorem queued_unique {s : Sys} (hi : NodeInv s) {p p' : Pid} {a a' : Bool} {n n' : NodeP} {j : JobId}
-    (hp : s.procs p = .node a n) (hp' : s.procs p' = .node a' n') (hj : j ∈ n.queued) (hj' : j ∈ n'.queued) :
-    p = p' := by
-  obtain ⟨b, hb, hh, -, hq, -⟩ := hi.ofBatch p a n hp
-  obtain ⟨b', hb', hh', -, hq', -⟩ := hi.ofBatch p' a' n' hp'
-  have hbb : b = b' := mem_unique_batch hi.batch.jobsNodup hb hb' (hq j hj) (hq' j hj')
-  subst hbb
-  have : n.hid = n'.hid := by rw [hh] at hh'; exact Option.some.inj hh'
-  exact hi.oneRunner p p' a a' n n' hp hp' this
-
-set_option maxHeartbeats 8000000 in
-theorem nodeInv_starts_step {s s' : Sys} {op : Op} (hi : NodeInv s) (h : step s op = some s') :
-    (∀ p a n, s'.procs p = .node a n → ∀ j ∈ n.queued, j ∉ s'.starts.map (·.1)) ∧
-    (∀ jh ∈ s'.starts, (∃ b ∈ s'.batches, b.hid = some jh.2 ∧ jh.1 ∈ b.jobs) ∧
-      (s'.slurm jh.2 = some .running ∨ s'.slurm jh.2 = some .ended)) ∧ (s'.starts.map (·.1)).Nodup := by
-  have hu := @queued_unique s hi
-  have hm := @mem_unique_batch s.batches hi.batch.jobsNodup
-  obtain ⟨-, n1, n2, n3, n4, n5, n6, n7, n8⟩ := hi
-  cases op <;> step_cases h <;> frame_all <;>
-    (refine ⟨?_, ?_, ?_⟩ <;> grind [find?_hid, List.nodup_append])
-
-end Jade.Sys
 
 namespace Jade.Sys
 
